@@ -1,6 +1,8 @@
 (* C19: the obligations over the REGENERATED template table (Gen/Cypher.v): a genuinely finite domain -
-   one template per session.run site / variant of the backend - decided by vm_compute and lifted with
-   forallb_forall, then combined with the unbounded soundness theorem of Cypher19Sound. *)
+   one template per session.run site / variant of the backend (plus one per statement nested in an escaped
+   literal) - decided by vm_compute and lifted with forallb_forall, then combined with the unbounded soundness
+   theorem of Cypher19Sound.  Everything here is table-driven: the same file compiles whether or not
+   known_ops (Model/Cypher19.v) is empty. *)
 From Coq Require Import List NArith Bool String.
 Import ListNotations.
 From FIM Require Import Base.Str Model.Cypher19 Gen.Cypher Proofs.Cypher19Sound.
@@ -9,17 +11,16 @@ Open Scope N_scope.
 Lemma gen_ok_true : gen_ok = true.
 Proof. reflexivity. Qed.
 
+Lemma tmpl_ok_conforms t : tmpl_ok t = true -> conforms t.
+Proof. intros H e e'. exact (tmpl_ok_sound t H e e'). Qed.
+
 Lemma all_ops_partial_b : forallb (fun t => tmpl_ok t || excused t) gen_templates = true.
 Proof. vm_compute. reflexivity. Qed.
 
-Theorem all_ops_partial :
-  forall t, In t gen_templates -> excused t = false ->
-  forall e e', idents_ok (t_frags t) e -> agree_on (ident_vars (t_frags t)) e e' ->
-  render (t_frags t) e = render (t_frags t) e' /\
-  wf_b (render (t_frags t) e) (t_params t) = true /\ wf_b (render (t_frags t) e') (t_params t) = true.
+Theorem all_ops_partial : forall t, In t gen_templates -> excused t = false -> conforms t.
 Proof.
   intros t Hin Hex. pose proof all_ops_partial_b as H. rewrite forallb_forall in H.
-  specialize (H t Hin). rewrite Hex, orb_false_r in H. exact (tmpl_ok_sound t H).
+  specialize (H t Hin). rewrite Hex, orb_false_r in H. exact (tmpl_ok_conforms t H).
 Qed.
 
 (* the list of excused operations is tight: each of them really has a template with a value-class hole,
@@ -34,42 +35,68 @@ Proof. vm_compute. reflexivity. Qed.
 Lemma interface_constants_In : forall c, In c gen_ident_constants -> ident_okb c = true.
 Proof. intros c H. pose proof interface_constants_ok as A. rewrite forallb_forall in A. exact (A c H). Qed.
 
+(* nested statements: the parent contains the escape of the nested template *)
+Lemma nested_ok_b : forallb (nested_pair_ok gen_templates) gen_nested = true.
+Proof. vm_compute. reflexivity. Qed.
+
+Theorem nested_denote :
+  forall p, In p gen_nested ->
+  exists tn tp, find_by_id gen_templates (fst p) = Some tn /\ find_by_id gen_templates (snd p) = Some tp /\
+    forall e, idents_ok (t_frags tn) e ->
+    exists a b, render (t_frags tp) e = a ++ esc_q (render (t_frags tn) e) ++ b.
+Proof.
+  intros p Hin. pose proof nested_ok_b as H. rewrite forallb_forall in H. specialize (H p Hin).
+  unfold nested_pair_ok in H.
+  destruct (find_by_id gen_templates (fst p)) as [tn|]; [|discriminate].
+  destruct (find_by_id gen_templates (snd p)) as [tp|]; [|discriminate].
+  exists tn, tp. split; [reflexivity|]. split; [reflexivity|].
+  exact (nested_in_denotes _ _ H).
+Qed.
+
 (* ------------------------------------------------------------------------------------------- *)
-(* the full statement (no operation excused) is false of the current code: a witness              *)
+(* the full statement (no operation excused): either it holds, or here is the witness            *)
 (* ------------------------------------------------------------------------------------------- *)
 Definition memN (v : N) (l : list N) : bool := existsb (N.eqb v) l.
 Definition env_a : env := fun _ => S"a".
 Definition env_b (fs : list frag) : env := fun v => if memN v (ident_vars fs) then S"a" else S"a""}) detach delete n //".
 
-Definition refute_witness : option (tmpl * bool) :=
+Definition witness_b (t : tmpl) : bool :=
+  let fs := t_frags t in
+  idents_okb fs env_a && negb (str_eqb (render fs env_a) (render fs (env_b fs)))
+  && negb (wf_b (render fs (env_b fs)) (t_params t)).
+
+Definition status_b : bool :=
   match find excused gen_templates with
-  | Some t => let fs := t_frags t in
-              Some (t, idents_okb fs env_a
-                       && negb (str_eqb (render fs env_a) (render fs (env_b fs)))
-                       && negb (wf_b (render fs (env_b fs)) (t_params t)))
-  | None => None
+  | Some t => witness_b t
+  | None => forallb tmpl_ok gen_templates
   end.
 
-Lemma refute_witness_ok : exists t, refute_witness = Some (t, true).
-Proof. vm_compute. eexists. reflexivity. Qed.
+Lemma status_b_ok : status_b = true.
+Proof. vm_compute. reflexivity. Qed.
 
 Lemma memN_In v l : In v l -> memN v l = true.
 Proof. intro H. unfold memN. apply existsb_exists. exists v. split; [exact H|apply N.eqb_refl]. Qed.
 
-Theorem all_ops_refuted :
-  exists t e e', In t gen_templates /\ idents_ok (t_frags t) e /\ agree_on (ident_vars (t_frags t)) e e' /\
-                 render (t_frags t) e <> render (t_frags t) e' /\
-                 wf_b (render (t_frags t) e') (t_params t) = false.
+Lemma witness_refutes t : witness_b t = true -> refuted_by_value t.
 Proof.
-  destruct refute_witness_ok as [t Ht]. unfold refute_witness in Ht.
-  destruct (find excused gen_templates) as [t0|] eqn:Hf; [|discriminate].
-  inversion Ht as [[Ht0 Hb]]. subst t0. clear Ht.
-  apply find_some in Hf as [Hin _].
+  unfold witness_b. intro Hb.
   apply andb_true_iff in Hb as [Hb H3]. apply andb_true_iff in Hb as [H1 H2].
-  exists t, env_a, (env_b (t_frags t)). split; [exact Hin|]. split; [exact (idents_okb_ok _ _ H1)|].
+  exists env_a, (env_b (t_frags t)). split; [exact (idents_okb_ok _ _ H1)|].
   split.
   - intros v Hv. unfold env_a, env_b. rewrite (memN_In _ _ Hv). reflexivity.
   - split.
     + intro Heq. rewrite Heq, str_eqb_refl in H2. discriminate.
     + apply negb_true_iff in H3. exact H3.
+Qed.
+
+Theorem all_ops_status :
+  match find excused gen_templates with
+  | Some t => In t gen_templates /\ excused t = true /\ refuted_by_value t
+  | None => forall t, In t gen_templates -> conforms t
+  end.
+Proof.
+  pose proof status_b_ok as H. unfold status_b in H.
+  destruct (find excused gen_templates) as [t|] eqn:Hf.
+  - apply find_some in Hf as [Hin Hex]. split; [exact Hin|]. split; [exact Hex|]. exact (witness_refutes t H).
+  - intros t Hin. rewrite forallb_forall in H. exact (tmpl_ok_conforms t (H t Hin)).
 Qed.
